@@ -1,8 +1,8 @@
 #!/bin/bash
 # usage: sweep.sh "<seeds>" [tier] [ids...]  -> one line per (id, seed) with exit code and wall time
 SEEDS=${1:-"1 2 3"}; TIER=${2:-quick}; shift 2 2>/dev/null
-IDS=${@:-$(cat /verif/tools/built.txt)}
-cd /verif
+IDS=${@:-$(cat "$(dirname "$0")/built.txt")}
+cd "$(dirname "$0")/.."
 for s in $SEEDS; do for id in $IDS; do
   t0=$(date +%s)
   out=$(VERIF_SEED=$s ./check $id $TIER 2>&1); rc=$?
